@@ -149,7 +149,7 @@ class Ctx:
             if f.endswith(".tla") or f.endswith(".cfg"):
                 shutil.copy(os.path.join(SPEC, f), rdir)
         e = dict(os.environ)
-        jto = "-Dfile.encoding=UTF-8 -Xss256m"
+        jto = "-Dfile.encoding=UTF-8 -Xss256m -Djava.io.tmpdir=" + rdir       # (TLC leaves an empty tlc-<n> directory per run in its tmpdir)
         jto += " -Xmx" + (heap or os.environ.get("VERIF_TLC_HEAP", "6g"))
         if dfs:
             jto += " -Dtlc2.tool.queue.IStateQueue=StateDeque"
